@@ -133,6 +133,24 @@ CLAIMED["C06"] = dict(
         "exclude. Function parsers (excluded_keys, *args, **kwargs) are not modelled.",
    technique="Coq proof: both strategies refine one contract; differential oracle on the implementation; correspondence per strategy",
    design="§8 C06")
+CLAIMED["C07"] = dict(
+   text="Machine-checked proof (Coq): an instance model (mapping contents + attribute copies) with every public mutating operation of "
+        "Schema (item / attribute assignment and deletion, pop, popitem, update and |=, setdefault, clear) and of DataClass (attribute "
+        "assignment and deletion), and the theorem that after any finite sequence of operations with any arguments the invariant of the "
+        "constructed instance still holds (C07_every_sequence_keeps_the_invariant, by induction over the sequence): a field's value is "
+        "the constructed one or an output of the field's own parse, required fields stay, immutable fields keep their value, no_output "
+        "fields never enter the mapping and the attribute view does not outlive the key; a single-key operation that raises changes "
+        "nothing (C07_raising_operation_changes_nothing).",
+   note="Trusted: Coq kernel; Model/Schema.v as a description of schema.py / cls.py make_setter/make_deleter (tied by the mutations "
+        "suite: random declarations, constructed instances, 1-8 random operations, mapping and attribute read of every field compared "
+        "after every step); hypotheses wf_inst / init_okb evaluated in Coq on every reflected class and constructed instance. Partial: "
+        "@property fields and the recomputation of their dependants, runtime options different from the class options, typed additions "
+        "and plain attribute assignment are not modelled; 'conforms to its declared type' is reduced to 'is an output of the field's "
+        "parse' (C01 gives conformity of parse outputs; the preserve policy and unvalidated defaults are outside); aliasing between an "
+        "instance and its copy is judged on the implementation only. Seven genuine defects found while building the model were repaired "
+        "in /repo (fix: commits c6384dd 583a316 f838025 b25d005 6ccd373 f67341e e9c698a).",
+   technique="Coq proof: invariant preserved by every operation (two kinds of local change), induction over operation sequences + "
+             "stepwise correspondence on random operation sequences + invariant oracle on the implementation", design="§8 C07")
 NOT_YET = {}
 for i in range(1, 21):
     pid = "C%02d" % i
